@@ -183,6 +183,13 @@ def _bind(helper, call, receiver_is_self, caller_names=frozenset()):
     for p, e in bound:
         if _simple_expr(e) and p not in helper.stored:
             mapping[p] = e
+        elif isinstance(e, ast.Name) and p in helper.stored and sum(
+                1 for _q, e2 in bound if isinstance(e2, ast.Name) and e2.id == e.id) == 1 \
+                and (e.id == p or e.id not in helper.stored | set(helper.params)) \
+                and _dead_after(e.id, _CALL_STMT[0], _CALLER_FN[0]):
+            # the helper re-binds its parameter, and the caller does not read the
+            # argument again: the parameter is the caller's local itself
+            mapping[p] = e.id
         else:
             tmp = p + suffix
             INTRODUCED.add(tmp)
@@ -199,6 +206,29 @@ def _bind(helper, call, receiver_is_self, caller_names=frozenset()):
 _EXPANDED = set()
 INTRODUCED = set()      # names that exist only because a helper was expanded
 _CALLER_NAMES = [frozenset()]
+_CALLER_FN = [None]
+_CALL_STMT = [None]
+
+
+def _dead_after(name, st, fn):
+    """Is the caller's local ``name`` not read after statement ``st`` (which is
+    not inside a loop) - or stored by ``st`` itself, so that its old value is gone?"""
+    if fn is None or st is None:
+        return False
+    for n in ast.walk(fn):
+        if isinstance(n, (ast.For, ast.While, ast.AsyncFor)) and any(x is st for x in ast.walk(n)):
+            return False
+    stores_it = any(isinstance(n, ast.Name) and n.id == name and isinstance(n.ctx, ast.Store)
+                    for t in getattr(st, 'targets', []) for n in ast.walk(t))
+    if stores_it:
+        return True
+    end = getattr(st, 'end_lineno', st.lineno)
+    inside = {id(x) for x in ast.walk(st)}
+    for n in ast.walk(fn):
+        if isinstance(n, ast.Name) and n.id == name and isinstance(n.ctx, ast.Load) \
+                and id(n) not in inside and getattr(n, 'lineno', 0) >= st.lineno:
+            return False
+    return True
 
 
 def _expand_generator_loop(st, helpers, scope_cls):
@@ -320,6 +350,15 @@ def _expand_with(st, helpers, scope_cls):
 
 def _expand_stmt(st, helpers, scope_cls):
     """Replacement statements for ``st`` if it is an expandable call site."""
+    saved_stmt = _CALL_STMT[0]
+    _CALL_STMT[0] = st
+    try:
+        return _expand_stmt_(st, helpers, scope_cls)
+    finally:
+        _CALL_STMT[0] = saved_stmt
+
+
+def _expand_stmt_(st, helpers, scope_cls):
     rep = _expand_generator_loop(st, helpers, scope_cls)
     if rep is None:
         rep = _expand_with(st, helpers, scope_cls)
@@ -373,7 +412,30 @@ def _expand_stmt(st, helpers, scope_cls):
                     INTRODUCED.add(tmp)
                     recv_holder.value = ast.copy_location(ast.Name(id=tmp, ctx=ast.Load()), recv)
                     return rep + [st]
-        return None
+    if call is not None and _resolve(call, helpers, scope_cls) is None and mode in ('expr', 'assign', 'return') \
+            and (isinstance(call.func, ast.Name) or _simple_expr(call.func)):
+        # `obj.method(helper(...))` / `f(a, helper(...))`: one helper call among
+        # otherwise simple arguments of a call on a simple receiver - bind it first
+        slots = [(call.args, i) for i, a in enumerate(call.args) if isinstance(a, ast.Call)] + \
+                [(k, 'value') for k in call.keywords if isinstance(k.value, ast.Call)]
+        others_simple = all(_simple_expr(a) for a in call.args if not isinstance(a, ast.Call)) and \
+            all(_simple_expr(k.value) for k in call.keywords if not isinstance(k.value, ast.Call))
+        if len(slots) == 1 and others_simple:
+            holder, key = slots[0]
+            inner = holder[key] if isinstance(holder, list) else holder.value
+            h = _resolve(inner, helpers, scope_cls)
+            if h is not None and h.ok and h.expr is None:
+                tmp = 'result_%s' % h.name.strip('_')
+                bind = ast.copy_location(ast.Assign(targets=[ast.Name(id=tmp, ctx=ast.Store())], value=inner), st)
+                rep = _expand_stmt(bind, helpers, scope_cls)
+                if rep is not None:
+                    INTRODUCED.add(tmp)
+                    load = ast.copy_location(ast.Name(id=tmp, ctx=ast.Load()), inner)
+                    if isinstance(holder, list):
+                        holder[key] = load
+                    else:
+                        holder.value = load
+                    return rep + [st]
     if call is None:
         return None
     helper = _resolve(call, helpers, scope_cls)
@@ -398,7 +460,59 @@ def _expand_stmt(st, helpers, scope_cls):
         if target.id not in arg_names and (target.id == local or target.id not in helper_names):
             mapping = dict(mapping)
             mapping[local] = target.id
+    # `t1, t2, t3 = helper(...)` where every return is a tuple display and the
+    # returns agree, at a position, on one local of the helper: that local is
+    # the target at that position (returns that put something else there assign it)
+    tuple_positions = {}
+    if mode == 'assign' and isinstance(target, (ast.Tuple, ast.List)) \
+            and all(isinstance(t, ast.Name) for t in target.elts) and rets and all(
+                isinstance(r.value, ast.Tuple) and len(r.value.elts) == len(target.elts) for r in rets):
+        helper_names = {n.id for s in helper.body for n in ast.walk(s) if isinstance(n, ast.Name)}
+        taken = {v for v in mapping.values() if isinstance(v, str)} | {
+            n.id for v in mapping.values() if isinstance(v, ast.AST) for n in ast.walk(v) if isinstance(n, ast.Name)}
+        mapping = dict(mapping)
+        for i, t in enumerate(target.elts):
+            at = {r.value.elts[i].id for r in rets if isinstance(r.value.elts[i], ast.Name)}
+            if len(at) != 1:
+                continue
+            local = next(iter(at))
+            cur = mapping.get(local, local)
+            if local in helper.stored and (cur == t.id or (
+                    isinstance(cur, str) and (local not in helper.params or cur != local or True)
+                    and t.id not in (taken - {cur}) and (t.id == local or t.id not in helper_names)
+                    and not any(m == t.id for k_, m in mapping.items() if k_ != local and isinstance(m, str)))):
+                if local in helper.params and not isinstance(mapping.get(local), str):
+                    continue
+                mapping[local] = t.id
+                tuple_positions[i] = t.id
     body = [_Subst(mapping).visit(copy.deepcopy(s)) for s in helper.body]
+    if tuple_positions:
+        # rewrite the returns: positions that already hold their target are dropped
+        def fix_returns(block):
+            out = []
+            for x in block:
+                if isinstance(x, ast.Return) and isinstance(x.value, ast.Tuple):
+                    keep_t, keep_v = [], []
+                    for i, (t, v) in enumerate(zip(target.elts, x.value.elts)):
+                        if i in tuple_positions and isinstance(v, ast.Name) and v.id == tuple_positions[i]:
+                            continue
+                        keep_t.append(copy.deepcopy(t))
+                        keep_v.append(v)
+                    for t, v in zip(keep_t, keep_v):
+                        out.append(ast.copy_location(ast.Assign(targets=[t], value=v), x))
+                    out.append(ast.copy_location(ast.Return(value=None), x))
+                    continue
+                for field in ('body', 'orelse', 'finalbody'):
+                    sub = getattr(x, field, None)
+                    if isinstance(sub, list) and sub and isinstance(sub[0], ast.stmt):
+                        setattr(x, field, fix_returns(sub))
+                out.append(x)
+            return out
+        body = fix_returns(body)
+        res = _single_exit(body, None)
+        if res is None:
+            return None
+        return prelude + (res[0] or [ast.copy_location(ast.Pass(), st)])
     if body and isinstance(body[-1], ast.Return) and isinstance(body[-1].value, ast.Name) \
             and mode == 'assign' and isinstance(target, ast.Name) and body[-1].value.id == target.id:
         if len(rets) == 1:
@@ -545,12 +659,15 @@ def inline_private_helpers(tree):
                         continue
                     if isinstance(st, ast.FunctionDef):
                         saved = _CALLER_NAMES[0]
+                        saved_fn = _CALLER_FN[0]
                         if not inside_helper:
                             _CALLER_NAMES[0] = frozenset(
                                 {n.id for n in ast.walk(st) if isinstance(n, ast.Name)}
                                 | {a.arg for a in st.args.args + st.args.kwonlyargs})
+                            _CALLER_FN[0] = st
                         walk_blocks(st, scope_cls, True)
                         _CALLER_NAMES[0] = saved
+                        _CALLER_FN[0] = saved_fn
                         new.append(st)
                         continue
                     rep = _expand_stmt(st, helpers, scope_cls) if inside_helper else None
